@@ -7,6 +7,8 @@ CONSTANTS
   Excl = TRUE
   WinLock = TRUE
   Fault = "noTrimWriter"
+  StrictBackend = TRUE
+  DrainAfterDecode = TRUE
   ReadPolicy = "any"
   Modes <- ModesCt
   Levels <- LevelsOne
